@@ -407,6 +407,49 @@ fn prog_cases(tier: &str) -> Vec<Value> {
         }
     }
     flush("peek-poke", &mut lines, &mut expect, &mut labels, &mut cases);
+    // PEEK / POKE of an INTEGER variable whose neighbours change size between the accesses: a string that grows
+    // and shrinks, a dynamic array that is REDIMmed, at module level and inside a SUB (the address of the variable
+    // may move, the two bytes read and written through VARPTR must still be the variable's)
+    for &a in &[4660, -2, -32768, 255, 256, 1] {
+        let b = (a as i16).to_le_bytes();
+        let peek = format!("{}{}", fmt_num(b[0] as i64), fmt_num(b[1] as i64));
+        for layout in 0..6 {
+            let mut l: Vec<String> = vec![];
+            let mut e: Vec<String> = vec![];
+            let (open, close): (Vec<&str>, Vec<&str>) = match layout {
+                0 | 1 | 2 => (vec![], vec![]),
+                _ => (vec!["DECLARE SUB Work ()", "G$ = \"xy\"", "Work", "END", "SUB Work"], vec!["END SUB"]),
+            };
+            for o in &open {
+                l.push(o.to_string());
+            }
+            // the neighbour and its three sizes
+            let (n0, n1, n2): (&str, &str, &str) = match layout % 3 {
+                0 => ("T$ = \"ab\"", "T$ = T$ + \"cdefgh\"", "T$ = \"\""),
+                1 => ("REDIM D%(2)", "REDIM D%(9)", "REDIM D%(0)"),
+                _ => ("T$ = \"ab\": REDIM D&(1)", "REDIM D&(5): T$ = \"a\"", "T$ = STRING$(40, \"z\")"),
+            };
+            l.push(n0.to_string());
+            l.push(format!("W% = {}", lit(a)));
+            l.push("Z$ = \"tail\"".to_string());
+            for n in [None, Some(n1), Some(n2)] {
+                if let Some(n) = n {
+                    l.push(n.to_string());
+                }
+                l.push("PRINT PEEK(VARPTR(W%)); PEEK(VARPTR(W%) + 1)".to_string());
+                e.push(peek.clone());
+            }
+            l.push("POKE VARPTR(W%), 254: POKE VARPTR(W%) + 1, 255: PRINT W%; Z$".to_string());
+            e.push(format!("{}tail", fmt_num(-2)));
+            l.push(n1.to_string());
+            l.push(format!("POKE VARPTR(W%), {}: POKE VARPTR(W%) + 1, {}: PRINT W%; Z$", b[0], b[1]));
+            e.push(format!("{}tail", fmt_num(a as i64)));
+            for c in &close {
+                l.push(c.to_string());
+            }
+            cases.push(json!({"k": "prog", "what": "peek-poke-neighbours", "text": l.join("\n") + "\n", "expect": e.join("\r\n") + "\r\n", "labels": [format!("value {} layout {}", a, layout)], "n": l.len()}));
+        }
+    }
     // MKD$ / CVD: byte-by-byte comparison through CHR$, for values written as d.d# literals
     // and for power-of-two ladders computed at run time (down into the subnormals, up to 2^1023).
     let mut doubles: Vec<(String, f64)> = vec![];
@@ -535,7 +578,7 @@ pub fn drive(tier: &str) -> i32 {
     cases.extend(progs);
     run.run_pool(&pool, cases.into_iter(), |_, _, _, _| {});
     let mut ev = Evidence::new("exploration");
-    ev.set("rule", "function level: every (a, b) with a in all 65536 INTEGER values and b in a 79-value lattice (boundaries, one-hots, complements, alternating patterns) for qb_and/qb_or; all 65536 values for i32_to_bytes/bytes_to_i32 (which also covers all 65536 byte pairs); every double sign x biased exponent 0..=2046 x mantissa lattice for f64_to_bytes/bytes_to_f64 (subnormals and magnitudes >= 2^63 included, NaN/inf excluded). Program level: AND/OR/NOT via PRINT, PEEK/POKE of both bytes via VARPTR, MKD$ bytes compared one by one via CHR$ and CVD via exact subtraction, on literals and on run-time power-of-two ladders. Enumeration has no repeats; non-trivial = result differs from both operands and from 0/-1 (and/or), value not 0/-1 (bytes), mantissa non-zero (doubles), every program-level statement.");
+    ev.set("rule", "function level: every (a, b) with a in all 65536 INTEGER values and b in a 79-value lattice (boundaries, one-hots, complements, alternating patterns) for qb_and/qb_or; all 65536 values for i32_to_bytes/bytes_to_i32 (which also covers all 65536 byte pairs); every double sign x biased exponent 0..=2046 x mantissa lattice for f64_to_bytes/bytes_to_f64 (subnormals and magnitudes >= 2^63 included, NaN/inf excluded). Program level: AND/OR/NOT via PRINT, PEEK/POKE of both bytes via VARPTR, MKD$ bytes compared one by one via CHR$ and CVD via exact subtraction, on literals and on run-time power-of-two ladders. Enumeration has no repeats; non-trivial = result differs from both operands and from 0/-1 (and/or), value not 0/-1 (bytes), mantissa non-zero (doubles), every program-level statement. peek-poke-neighbours: PEEK and POKE of both bytes of an INTEGER variable (6 values) whose neighbours change size between the accesses — a string that grows and shrinks, a dynamic array that is REDIMmed, both — at module level and inside a SUB (6 layouts): the bytes are the variable's before and after every change.");
     ev.set("exhaustive", true);
     ev.set("function_level_chunks", function_level_cases as u64);
     ev.set("program_level_programs", program_cases as u64);
